@@ -455,7 +455,16 @@ def emit_extract(gen, ex, repo_root, unit):
             ma = re.match(r'^#(\d+)\s+(.*)$', anchor)
             if ma:
                 nth_a, anchor = int(ma.group(1)), ma.group(2)
-            occ = [m.start() for m in re.finditer(re.escape(anchor), item)]
+            if anchor.startswith('='):
+                # exact-line anchor: a line of the function whose stripped text equals the anchor
+                want = anchor[1:].strip()
+                occ, off = [], 0
+                for ln_ in item.split('\n'):
+                    if ln_.strip() == want:
+                        occ.append(off + (len(ln_) - len(ln_.lstrip())))
+                    off += len(ln_) + 1
+            else:
+                occ = [m.start() for m in re.finditer(re.escape(anchor), item)]
             if ma is None and len(occ) != 1:
                 raise ExtractError('lost anchor: %r occurs %d times in fn %s (%s:%d)'
                                    % (anchor, len(occ), ex.name, unit, b.lineno))
